@@ -30,6 +30,9 @@ pub struct ServerLog(pub Vec<(CK, u32, Entity, Option<Entity>)>);
 pub struct SEmitQueue(pub Vec<(SK, u32, SendMode, Option<Entity>)>);
 #[derive(Resource, Default)]
 pub struct DisconnectRequests(pub Vec<Entity>);
+/// `CList` events that reached server logic with a payload other than the one emitted for their sequence number.
+#[derive(Resource, Default)]
+pub struct BadPayload(pub Vec<String>);
 /// Ticks for which the client reported `MutateTickReceived`.
 #[derive(Resource, Default)]
 pub struct TickLog(pub Vec<u32>);
@@ -49,6 +52,9 @@ fn client_emit(world: &mut World) {
             }
             CK::Unrel => {
                 world.send_event(CUnrel(seq));
+            }
+            CK::List => {
+                world.send_event(CList::of(seq));
             }
             CK::Map => match cref {
                 Some(ce) => {
@@ -153,7 +159,8 @@ pub fn make_app(cfg: &Cfg, mismatch: bool) -> App {
         .add_client_event::<CUnord>(Channel::Unordered)
         .add_client_event::<CUnrel>(Channel::Unreliable)
         .add_mapped_client_event::<CMap>(Channel::Ordered)
-        .add_client_trigger::<CTrig>(Channel::Ordered);
+        .add_client_trigger::<CTrig>(Channel::Ordered)
+        .add_client_event::<CList>(Channel::Ordered);
     if mismatch {
         app.replicate::<Extra>();
     }
@@ -164,6 +171,7 @@ pub fn make_app(cfg: &Cfg, mismatch: bool) -> App {
         .init_resource::<SEmitQueue>()
         .init_resource::<MismatchSeen>()
         .init_resource::<DisconnectRequests>()
+        .init_resource::<BadPayload>()
         .init_resource::<TickLog>();
     app.add_systems(
         PreUpdate,
@@ -226,6 +234,14 @@ pub fn make_app(cfg: &Cfg, mismatch: bool) -> App {
             |mut r: EventReader<FromClient<CMap>>, mut log: ResMut<ServerLog>| {
                 for e in r.read() {
                     log.0.push((CK::Map, e.event.0, e.client, Some(e.event.1)));
+                }
+            },
+            |mut r: EventReader<FromClient<CList>>, mut log: ResMut<ServerLog>, mut bad: ResMut<BadPayload>| {
+                for e in r.read() {
+                    if e.event != CList::of(e.event.0) {
+                        bad.0.push(format!("{:?}", e.event));
+                    }
+                    log.0.push((CK::List, e.event.0, e.client, None));
                 }
             },
             |mut r: EventReader<DisconnectRequest>, mut log: ResMut<DisconnectRequests>| {
